@@ -18,6 +18,7 @@ from multiprocessing.connection import Connection
 from queue import Empty
 from queue import Queue
 from threading import Lock
+from threading import RLock
 from threading import Thread
 from typing import Any
 from typing import cast
@@ -195,6 +196,16 @@ class Worker:
         addition/enqueueing. This is necessary to ensure that the idle status is
         always correct.
         """
+        self._state_lock = RLock()
+        """
+        Serializes the two worker threads on the task and mailbox tables.
+
+        The incoming thread holds it while handling a message and the main
+        thread holds it around its own bookkeeping, but never while a task
+        is executing or while blocked waiting for a ready task. When both
+        locks are needed, this one is always taken before the
+        `read_receipt_mutex`.
+        """
         # Send out every client emitted log message upstream
         old_factory = logging.getLogRecordFactory()
 
@@ -276,33 +287,38 @@ class Worker:
                     os.kill(os.getpid(), signal.SIGKILL)
 
             elif msg == RuntimeMessage.SUBMIT:
-                self.read_receipt_mutex.acquire()
-                task = cast(RuntimeTask, payload)
-                self.most_recent_read_submit = task.unique_id
-                self._add_task(task)
-                self.read_receipt_mutex.release()
+                with self._state_lock:
+                    self.read_receipt_mutex.acquire()
+                    task = cast(RuntimeTask, payload)
+                    self.most_recent_read_submit = task.unique_id
+                    self._add_task(task)
+                    self.read_receipt_mutex.release()
 
             elif msg == RuntimeMessage.SUBMIT_BATCH:
-                self.read_receipt_mutex.acquire()
-                tasks = cast(list[RuntimeTask], payload)
-                self.most_recent_read_submit = tasks[0].unique_id
-                first_task = tasks.pop()
-                self._delayed_tasks.extend(tasks)  # Delay rest
-                self._add_task(first_task)  # Submit one task
-                self.read_receipt_mutex.release()
+                with self._state_lock:
+                    self.read_receipt_mutex.acquire()
+                    tasks = cast(list[RuntimeTask], payload)
+                    self.most_recent_read_submit = tasks[0].unique_id
+                    first_task = tasks.pop()
+                    self._delayed_tasks.extend(tasks)  # Delay rest
+                    self._add_task(first_task)  # Submit one task
+                    self.read_receipt_mutex.release()
 
             elif msg == RuntimeMessage.RESULT:
                 result = cast(RuntimeResult, payload)
-                self._handle_result(result)
+                with self._state_lock:
+                    self._handle_result(result)
 
             elif msg == RuntimeMessage.CANCEL:
                 addr = cast(RuntimeAddress, payload)
-                self._handle_cancel(addr)
+                with self._state_lock:
+                    self._handle_cancel(addr)
                 # TODO: preempt?
 
             elif msg == RuntimeMessage.COMMUNICATE:
                 addrs, msg = cast(tuple[list[RuntimeAddress], Any], payload)
-                self._handle_communicate(addrs, msg)
+                with self._state_lock:
+                    self._handle_communicate(addrs, msg)
 
             elif msg == RuntimeMessage.IMPORTPATH:
                 paths = cast(list[str], payload)
@@ -387,9 +403,13 @@ class Worker:
     def _get_next_ready_task(self) -> RuntimeTask | None:
         """Return the next ready task if one exists, otherwise block."""
         while True:
-            if self._ready_task_ids.empty() and len(self._delayed_tasks) > 0:
-                self._add_task(self._delayed_tasks.pop())
-                continue
+            with self._state_lock:
+                if (
+                    self._ready_task_ids.empty()
+                    and len(self._delayed_tasks) > 0
+                ):
+                    self._add_task(self._delayed_tasks.pop())
+                    continue
 
             # Critical section
             # Attempt to get a ready task. If none are available, message
@@ -416,23 +436,32 @@ class Worker:
             if not self._running:
                 return None
 
-            if addr in self._cancelled_task_ids or addr not in self._tasks:
-                # When a task is cancelled on the worker it is not removed
-                # from the ready queue because it is much cheaper to just
-                # discard cancelled tasks as they come out.
-                continue
+            with self._state_lock:
+                if (
+                    addr in self._cancelled_task_ids
+                    or addr not in self._tasks
+                ):
+                    # When a task is cancelled on the worker it is not
+                    # removed from the ready queue because it is much
+                    # cheaper to just discard cancelled tasks as they
+                    # come out.
+                    continue
 
-            task = self._tasks[addr]
+                task = self._tasks[addr]
 
-            if any(bcb in self._cancelled_task_ids for bcb in task.breadcrumbs):
-                # If any of the selected tasks ancestor tasks are cancelled
-                # then discard this one too. Each breadcrumb (bcb) is a
-                # task address (unique system-wide task id) of an ancestor
-                # task.
-                # TODO: do I need to manually remove addr from self._tasks?
-                continue
+                if any(
+                    bcb in self._cancelled_task_ids
+                    for bcb in task.breadcrumbs
+                ):
+                    # If any of the selected tasks ancestor tasks are
+                    # cancelled then discard this one too. Each breadcrumb
+                    # (bcb) is a task address (unique system-wide task id)
+                    # of an ancestor task.
+                    # TODO: do I need to manually remove addr from
+                    # self._tasks?
+                    continue
 
-            return task
+                return task
 
     def _try_step_next_ready_task(self) -> None:
         """Select a task to run, and advance it one step."""
@@ -444,17 +473,28 @@ class Worker:
         try:
             self._active_task = task
 
-            # Perform a step of the task and get the future it awaits on
-            future = task.step(self._get_desired_result(task))
+            with self._state_lock:
+                if task.return_address not in self._tasks:
+                    return  # Cancelled after it was selected
 
-            self._process_await(task, future)
+                desired_result = self._get_desired_result(task)
+
+            # Perform a step of the task and get the future it awaits on
+            future = task.step(desired_result)
+
+            with self._state_lock:
+                self._process_await(task, future)
 
         except StopIteration as e:
-            self._process_task_completion(task, e.value)
+            with self._state_lock:
+                self._process_task_completion(task, e.value)
 
         except Exception as e:
             if type(e) is RuntimeError:
-                for addr in self._cancelled_task_ids:
+                with self._state_lock:
+                    cancelled_task_ids = list(self._cancelled_task_ids)
+
+                for addr in cancelled_task_ids:
                     if task.is_descendant_of(addr):
                         return
 
@@ -577,9 +617,10 @@ class Worker:
         fnarg = (fn, args, kwargs)
 
         # Create a new mailbox
-        mailbox_id = self._get_new_mailbox_id()
-        self._mailboxes[mailbox_id] = WorkerMailbox.new_mailbox()
-        self._active_task.owned_mailboxes.append(mailbox_id)
+        with self._state_lock:
+            mailbox_id = self._get_new_mailbox_id()
+            self._mailboxes[mailbox_id] = WorkerMailbox.new_mailbox()
+            self._active_task.owned_mailboxes.append(mailbox_id)
 
         # Create the task
         task = RuntimeTask(
@@ -650,9 +691,12 @@ class Worker:
             raise RuntimeError('Unable to map 0 tasks.')
 
         # Create a new mailbox
-        mailbox_id = self._get_new_mailbox_id()
-        self._mailboxes[mailbox_id] = WorkerMailbox.new_mailbox(len(fnargs))
-        self._active_task.owned_mailboxes.append(mailbox_id)
+        with self._state_lock:
+            mailbox_id = self._get_new_mailbox_id()
+            self._mailboxes[mailbox_id] = WorkerMailbox.new_mailbox(
+                len(fnargs),
+            )
+            self._active_task.owned_mailboxes.append(mailbox_id)
 
         # Create the tasks
         breadcrumbs = self._active_task.breadcrumbs
@@ -699,9 +743,11 @@ class Worker:
     def cancel(self, future: RuntimeFuture) -> None:
         """Cancel all tasks associated with `future`."""
         assert self._active_task is not None
-        num_slots = self._mailboxes[future.mailbox_id].expected_num_results
-        self._active_task.owned_mailboxes.remove(future.mailbox_id)
-        self._mailboxes.pop(future.mailbox_id)
+        with self._state_lock:
+            box = self._mailboxes[future.mailbox_id]
+            num_slots = box.expected_num_results
+            self._active_task.owned_mailboxes.remove(future.mailbox_id)
+            self._mailboxes.pop(future.mailbox_id)
         addrs = [
             RuntimeAddress(self._id, future.mailbox_id, slot_id)
             for slot_id in range(num_slots)
